@@ -167,6 +167,21 @@ def main(tier: str) -> int:
         cp.forward(X * 3.0)
         if not np.array_equal(net.forward(X), out1):
             chk.fail("a forward call on a copy changed the original net's result", d, {**feats, "clause": "history"})
+        # the data may be stored as float32 / integers / booleans / in Fortran order: the result is the float64 function of the numbers in it
+        Xi = np.round(X * 2.0)
+        for dt_name, Xd in (("int64", Xi.astype(np.int64)), ("int32", Xi.astype(np.int32)), ("bool", (Xi > 0)), ("float32", X.astype(np.float32)),
+                            ("fortran", np.asfortranarray(X))):
+            chk.count("dtype_" + dt_name)
+            try:
+                o_d = np.asarray(net.forward(Xd, W))
+                o_f = np.asarray(net.forward(np.ascontiguousarray(Xd, dtype=np.float64), W))
+                same = o_d.shape == o_f.shape and np.allclose(o_d.astype(np.float64), o_f, rtol=1e-12, atol=1e-300, equal_nan=True)
+                det = {"max_abs_diff": float(np.nanmax(np.abs(o_d.astype(np.float64) - o_f))) if o_d.shape == o_f.shape and o_d.size else None, "result_dtype": str(o_d.dtype)}
+            except Exception as e:  # noqa
+                same, det = False, {"error": repr(e)[:160]}
+            if not same:
+                chk.fail("forward differs from the reference evaluation of the graph", {**d, "scenario": "the same numbers stored as " + dt_name + " and as float64 give different outputs", **det},
+                         {**feats, "clause": "x_dtype", "dtype": dt_name})
         # S3: certificate + Float evaluation of the implementation's schedule by the model
         nj = NL.net_json(net)
         sch = NL.sched_json(net)
